@@ -94,6 +94,7 @@ type Runner struct {
 	Cond                  map[string]bool // every oracle clause that has fired in this history
 	RejectedLeftPending   bool            // a rejected reconfiguration left undelivered changes behind
 	RemoveLiveLeftPending bool            // a remove-live step left undelivered changes behind (KF9)
+	Deaf                  bool            // events are not delivered until the next sync step (see doLifecycle)
 	RemovedLive           bool            // the last remove step removed a container that had not been stopped
 	RaceBadCfg            *Config         // race mode: configuration the policy rejects only after having started to apply it
 	RaceAllowed           IntSet          // race mode: union of the available CPUs of all configurations accepted so far
